@@ -12,6 +12,20 @@ CHECKS = {
          "Trusted base: ref/gf16 (definition-level arithmetic, self-checked), 128-bit carry-less product; Poly64 operands beyond the enumerated structured families are not covered.",
          "DESIGN.md 3/C08"),
 }
+
+MC="bounded-exhaustive enumeration of executions of the real code against a reference model"
+def form_b(text, note, ref):
+    return ("model_checking", MC, text, note, ref)
+CHECKS.update({
+ "C01": form_b("Every scenario in a stated bounded space (core grid full product; all <=2 (thorough <=3) combinations of damage operators from a full menu around default sets; structured large sets) runs gopar's real Create, Verify and Repair on an owned in-memory filesystem; the verdict of each execution comes from an independent brute-force slice scan and a reference Vandermonde singularity test. Within the bounds the enumeration is complete, not sampled.",
+   "Trusted base: ref/rpar2, ref/scan, ref/lin, ref/gf16, envfs. File contents are fixed patterns perturbed by the seed; sizes beyond the structured large cases are not covered.", "DESIGN.md 3/C01"),
+ "C03": form_b("Same scenario space as C01 with the operators that keep all slices findable while files are wrong as first-class members; every Verify result is compared with the byte-level truth and the brute-force scan (clean => intact, soundness and completeness inequalities, parity-block count, RepairPossible consistency).",
+   "Trusted base as C01. Recovery files are only deleted here (corruption of recovery files is C13/C19).", "DESIGN.md 3/C03"),
+ "C04": form_b("Full product over small PAR1 sets (files x sizes x volumes x every per-file damage assignment x every subset of deleted volumes) plus all <=2-deviation scenarios around Unicode-named, >16 KiB, 20-40-file and 10/98/99-volume sets; real Create/Verify/Verify(all)/Repair; counts compared with byte truth, must-succeed decided by a reference GF(2^8) rank computation.",
+   "Trusted base: ref/gf8, envfs, byte comparison. Depends on klauspost/reedsolomon selecting the first present shards.", "DESIGN.md 3/C04"),
+ "C16": form_b("Full product slice size x file length x insert/delete x every position x every edit length x second file, plus every pair for content-under-another-name; the recovery files are pruned to exactly the number of slices the edit destroys, so Repair succeeding proves no found slice consumed a block; Verify's usable count must equal the brute-force scan.",
+   "Trusted base: ref/scan and edit geometry (cross-checked against each other as an upper bound). High-entropy content only (low-entropy classes are in C01/C03 under the ambiguity rule).", "DESIGN.md 3/C16"),
+})
 NOT_YET = "check not built yet in this round (work in progress; see DESIGN.md section 3 for the planned model-checking harness)"
 
 def main():
